@@ -35,6 +35,12 @@ package keeper
 //@ ghost pos.burnq (Array Bytes Bool)
 //@ ghost pos.stakesum Int
 //@ ghost pos.proposer Bytes
+//@ ghost pos.prev (Array Bytes Int)
+//@ ghost pos.prevhas (Array Bytes Bool)
+//@ ghost pos.prevtotal Int
+//@ ghost pit.rank (Array Bytes Int)
+//@ ghost pit.pw (Array Iface (Array Int Int))
+//@ ghost nls.at (Array Bytes Int)
 //@ ghost pos.proposerset Bool
 
 // records are stored under their own address, and a validator's consensus key hashes to it
@@ -112,6 +118,32 @@ package keeper
 //@   mode value
 //@   modifies pos.awards[address], pos.awardq[address], pos.awardsum
 //@   ensures pos.awards[address] == val(amount) && pos.awardq[address] && pos.awardsum == old(pos.awardsum) - old(pos.awards[address]) + val(amount)
+// previous-state powers (prefix 0x31): the module's memory of the validator set Tendermint currently has
+//@ assumed func (k Keeper) SetPrevStateValPower(ctx sdk.Ctx, addr sdk.Address, power int64)
+//@   mode value
+//@   modifies pos.prev[addr], pos.prevhas[addr]
+//@   ensures pos.prev[addr] == power && pos.prevhas[addr]
+//@ assumed func (k Keeper) DeletePrevStateValPower(ctx sdk.Ctx, addr sdk.Address)
+//@   mode value
+//@   modifies pos.prevhas[addr]
+//@   ensures !pos.prevhas[addr]
+//@ assumed func (k Keeper) SetPrevStateValidatorsPower(ctx sdk.Ctx, power sdk.Int)
+//@   mode value
+//@   modifies pos.prevtotal
+//@   ensures pos.prevtotal == val(power)
+// a fresh Go map: [20]byte(address) -> amino(power) for every previous-state entry
+//@ assumed func (k Keeper) getPrevStatePowerMap(ctx sdk.Ctx) (r valPowerMap)
+//@   mode value
+//@   ensures fresh(r)
+//@   ensures forall a Bytes :: bytes_len(a) == 20 ==> has(r, akey(a)) == pos.prevhas[a] && (pos.prevhas[a] ==> r[akey(a)] == enc_i64(pos.prev[a]))
+// the keys of the map as byte strings, each once (sorted by address: the order is not part of this contract);
+// nls.at[a] names the position of a in the returned list
+//@ assumed func sortNoLongerStakedValidators(prevState valPowerMap) (r [][]byte)
+//@   mode value
+//@   modifies nls.at
+//@   ensures fresh(r)
+//@   ensures forall j int :: 0 <= j && j < len(r) ==> bytes_len(r[j]) == 20 && has(prevState, akey(r[j])) && nls.at[r[j]] == j
+//@   ensures forall a Bytes :: bytes_len(a) == 20 && has(prevState, akey(a)) ==> 0 <= nls.at[a] && nls.at[a] < len(r) && r[nls.at[a]] == a
 //@ assumed func (k Keeper) GetPreviousProposer(ctx sdk.Ctx) (address sdk.Address)
 //@   mode value
 //@   panics when !pos.proposerset
@@ -377,7 +409,7 @@ package keeper
 //@   loop 1 decreases pit.len[iterator] - pit.pos[iterator]
 //@   loop 1 invariant 0 <= pit.pos[iterator] && pit.pos[iterator] <= pit.len[iterator]
 //@   loop 1 maintains bankinv valinv idxinv queueinv mininv
-//@   loop 1 invariant pos.sinfo == old(pos.sinfo) && pos.sinfohas == old(pos.sinfohas) && pos.missed == old(pos.missed) && pos.awards == old(pos.awards) && pos.awardq == old(pos.awardq) && pos.awardsum == old(pos.awardsum) && pos.proposer == old(pos.proposer) && pos.proposerset == old(pos.proposerset)
+//@   loop 1 invariant pos.sinfo == old(pos.sinfo) && pos.sinfohas == old(pos.sinfohas) && pos.missed == old(pos.missed) && pos.awards == old(pos.awards) && pos.awardq == old(pos.awardq) && pos.awardsum == old(pos.awardsum) && pos.proposer == old(pos.proposer) && pos.proposerset == old(pos.proposerset) && pos.prev == old(pos.prev) && pos.prevhas == old(pos.prevhas) && pos.prevtotal == old(pos.prevtotal)
 //@   loop 1 invariant forall a Bytes :: a != modaddr("staked_tokens_pool") ==> auth.has[a] == old(auth.has[a])
 //@   loop 1 invariant forall a Bytes :: pos.burnq[a] == (old(pos.burnq[a]) && pit.at[iterator][a] >= pit.pos[iterator])
 //@   loop 1 invariant forall a Bytes :: pos.burns[a] == ite(pos.burnq[a], old(pos.burns[a]), 0)
@@ -473,7 +505,7 @@ package keeper
 //@   loop 1 decreases pit.len[iterator] - pit.pos[iterator]
 //@   loop 1 invariant 0 <= pit.pos[iterator] && pit.pos[iterator] <= pit.len[iterator]
 //@   loop 1 maintains bankinv
-//@   loop 1 invariant pos.vals == old(pos.vals) && pos.has == old(pos.has) && pos.idx == old(pos.idx) && pos.queue == old(pos.queue) && pos.sinfo == old(pos.sinfo) && pos.sinfohas == old(pos.sinfohas) && pos.missed == old(pos.missed) && pos.burns == old(pos.burns) && pos.burnq == old(pos.burnq) && pos.stakesum == old(pos.stakesum) && pos.proposer == old(pos.proposer) && pos.proposerset == old(pos.proposerset)
+//@   loop 1 invariant pos.vals == old(pos.vals) && pos.has == old(pos.has) && pos.idx == old(pos.idx) && pos.queue == old(pos.queue) && pos.sinfo == old(pos.sinfo) && pos.sinfohas == old(pos.sinfohas) && pos.missed == old(pos.missed) && pos.burns == old(pos.burns) && pos.burnq == old(pos.burnq) && pos.stakesum == old(pos.stakesum) && pos.proposer == old(pos.proposer) && pos.proposerset == old(pos.proposerset) && pos.prev == old(pos.prev) && pos.prevhas == old(pos.prevhas) && pos.prevtotal == old(pos.prevtotal)
 //@   loop 1 invariant forall a Bytes :: pos.awardq[a] == (old(pos.awardq[a]) && pit.at[iterator][a] >= pit.pos[iterator])
 //@   loop 1 invariant forall a Bytes :: pos.awards[a] == ite(pos.awardq[a], old(pos.awards[a]), 0)
 //@   loop 1 invariant pos.awardsum == old(pos.awardsum) - pit.sum[iterator][pit.pos[iterator]]
@@ -516,6 +548,61 @@ package keeper
 //@   ensures [burnt] ctx_time(ctx) - timestamp <= pp_max_evidence_age ==> amt(auth.supply, pp_denom) == amt(old(auth.supply), pp_denom) - old(val(pos.vals[addr].StakedTokens))
 //@   ensures [backed] amt(auth.bal[modaddr("staked_tokens_pool")], pp_denom) - pos.stakesum == old(amt(auth.bal[modaddr("staked_tokens_pool")], pp_denom) - pos.stakesum)
 //@   ensures [supplypool] amt(auth.supply, pp_denom) - amt(auth.bal[modaddr("staked_tokens_pool")], pp_denom) == old(amt(auth.supply, pp_denom) - amt(auth.bal[modaddr("staked_tokens_pool")], pp_denom))
+
+// ---------------------------------------------------------------- valStateChanges.go: UpdateTendermintValidators
+//@ macro IDXD(a) := pos.has[a] && pos.vals[a].Status == 2 && !pos.vals[a].Jailed
+//@ macro PWR(a) := val(pos.vals[a].StakedTokens) / 1000000
+//@ macro TOPN(a) := IDXD(a) && pit.rank[a] < pp_max_validators
+//@ macro OWN(u) := tmpk_owner(u.PubKey.Data)
+//@ macro CHANGED(a) := !(old(pos.prevhas)[a] && old(pos.prev)[a] == PWR(a))
+//@ macro DONE1(a) := IDXD(a) && 0 <= pit.rank[a] && pit.rank[a] < pit.pos[iterator]
+//@ macro NPOS() := len(updates) - (#rangeindex + 1)
+// C05: the returned updates turn the previous-state set (what Tendermint has) into exactly the MaxValidators first
+// validators of the power index order (pit.rank: power descending, then address ascending), each with power
+// floor(stake / 10^6): one update per validator whose power is new or changed, one zero-power update per validator
+// that drops out, no validator twice, no zero update for a validator Tendermint does not have; and the
+// previous-state set is rewritten to that top-N set.
+//@ func (k Keeper) UpdateTendermintValidators(ctx sdk.Ctx) (updates []abci.ValidatorUpdate)
+//@   props C05
+//@   uses valinv idxinv
+//@   requires 0 <= pp_max_validators && pp_max_validators <= 9223372036854775807
+//@   requires forall a Bytes :: pos.prevhas[a] ==> pos.has[a]
+//@   modifies pos.prev, pos.prevhas, pos.prevtotal, pit.rank, pit.pos, pit.len, pit.key, pit.val, pit.at, pit.sum, pit.pw, nls.at
+//@   loop 1 frame
+//@   loop 1 decreases pit.len[iterator] - pit.pos[iterator]
+//@   loop 1 invariant 0 <= pit.pos[iterator] && pit.pos[iterator] <= pit.len[iterator] && count == pit.pos[iterator] && count <= pp_max_validators
+//@   loop 1 invariant updates == nil || fresh(updates)
+//@   loop 1 invariant forall a Bytes :: IDXD(a) ==> pos.idx[a][PWR(a)] && 0 <= pit.rank[a] && pit.rank[a] < pit.len[iterator] && pit.val[iterator][pit.rank[a]] == a && pit.pw[iterator][pit.rank[a]] == PWR(a) && bytes_len(a) == 20
+//@   loop 1 invariant forall i int :: 0 <= i && i < pit.len[iterator] ==> IDXD(pit.val[iterator][i]) && pit.rank[pit.val[iterator][i]] == i && pit.pw[iterator][i] == PWR(pit.val[iterator][i])
+//@   loop 1 invariant fresh(prevStatePowerMap)
+//@   loop 1 invariant forall a Bytes :: bytes_len(a) == 20 ==> has(prevStatePowerMap, akey(a)) == (old(pos.prevhas[a]) && !DONE1(a)) && (has(prevStatePowerMap, akey(a)) ==> prevStatePowerMap[akey(a)] == enc_i64(old(pos.prev[a])))
+//@   loop 1 invariant forall a Bytes :: (DONE1(a) ==> pos.prevhas[a] && pos.prev[a] == PWR(a)) && (!DONE1(a) ==> pos.prevhas[a] == old(pos.prevhas[a]) && pos.prev[a] == old(pos.prev[a]))
+//@   loop 1 invariant forall j int :: 0 <= j && j < len(updates) ==> DONE1(OWN(updates[j]))
+//@   loop 1 invariant forall j int :: 0 <= j && j < len(updates) ==> updates[j].Power == PWR(OWN(updates[j]))
+//@   loop 1 invariant forall j int :: 0 <= j && j < len(updates) ==> updates[j].Power > 0
+//@   loop 1 invariant forall j int :: 0 <= j && j < len(updates) ==> CHANGED(OWN(updates[j]))
+//@   loop 1 invariant forall i int, j int :: 0 <= i && i < j && j < len(updates) ==> pit.rank[OWN(updates[i])] < pit.rank[OWN(updates[j])]
+//@   loop 1 invariant forall a Bytes :: DONE1(a) && CHANGED(a) ==> (exists j int :: {j == len(updates) - 1} 0 <= j && j < len(updates) && OWN(updates[j]) == a)
+//@   loop 2 frame
+//@   loop 2 invariant 0 - 1 <= #rangeindex && #rangeindex < len(noLongerStaked) && (updates == nil || fresh(updates))
+//@   loop 2 invariant forall a Bytes :: bytes_len(a) == 20 ==> has(prevStatePowerMap, akey(a)) == (old(pos.prevhas[a]) && !TOPN(a))
+//@   loop 2 invariant forall j int :: 0 <= j && j < len(updates) ==> updates[j].Power >= 0
+//@   loop 2 invariant forall j int :: 0 <= j && j < len(updates) && updates[j].Power > 0 ==> TOPN(OWN(updates[j])) && updates[j].Power == PWR(OWN(updates[j])) && CHANGED(OWN(updates[j]))
+//@   loop 2 invariant forall j int :: 0 <= j && j < len(updates) && updates[j].Power == 0 ==> !TOPN(OWN(updates[j]))
+//@   loop 2 invariant forall j int :: 0 <= j && j < len(updates) && updates[j].Power == 0 ==> old(pos.prevhas)[OWN(updates[j])]
+//@   loop 2 invariant forall j int :: 0 <= j && j < len(updates) && updates[j].Power == 0 ==> 0 <= nls.at[OWN(updates[j])] && nls.at[OWN(updates[j])] <= #rangeindex
+//@   loop 2 invariant forall i int, j int :: 0 <= i && i < j && j < len(updates) && updates[i].Power > 0 && updates[j].Power > 0 ==> pit.rank[OWN(updates[i])] < pit.rank[OWN(updates[j])]
+//@   loop 2 invariant forall i int, j int :: 0 <= i && i < j && j < len(updates) && updates[i].Power == 0 && updates[j].Power == 0 ==> nls.at[OWN(updates[i])] < nls.at[OWN(updates[j])]
+//@   loop 2 invariant forall a Bytes :: TOPN(a) && CHANGED(a) ==> (exists j int :: 0 <= j && j < len(updates) && OWN(updates[j]) == a)
+//@   loop 2 invariant forall a Bytes :: old(pos.prevhas[a]) && !TOPN(a) && nls.at[a] <= #rangeindex ==> (exists j int :: {j == len(updates) - 1} 0 <= j && j < len(updates) && OWN(updates[j]) == a)
+//@   loop 2 invariant forall a Bytes :: (TOPN(a) ==> pos.prevhas[a] && pos.prev[a] == PWR(a)) && (!TOPN(a) ==> pos.prevhas[a] == (old(pos.prevhas[a]) && nls.at[a] > #rangeindex))
+//@   ensures [order] forall a Bytes, b Bytes :: IDXD(a) && IDXD(b) && (PWR(a) > PWR(b) || (PWR(a) == PWR(b) && bytes_lt(a, b))) ==> pit.rank[a] < pit.rank[b]
+//@   ensures [prev-is-topN] forall a Bytes :: pos.prevhas[a] == TOPN(a) && (TOPN(a) ==> pos.prev[a] == PWR(a))
+//@   ensures [applicable] forall j int :: 0 <= j && j < len(updates) ==> updates[j].Power >= 0 && (updates[j].Power == 0 ==> old(pos.prevhas)[OWN(updates[j])])
+//@   ensures [nodup] forall i int, j int :: 0 <= i && i < j && j < len(updates) ==> OWN(updates[i]) != OWN(updates[j])
+//@   ensures [sound] forall j int :: 0 <= j && j < len(updates) ==> (updates[j].Power > 0 ==> TOPN(OWN(updates[j])) && updates[j].Power == PWR(OWN(updates[j])) && CHANGED(OWN(updates[j]))) && (updates[j].Power == 0 ==> !TOPN(OWN(updates[j])))
+//@   ensures [complete] forall a Bytes :: (TOPN(a) && CHANGED(a)) || (old(pos.prevhas[a]) && !TOPN(a)) ==> (exists j int :: 0 <= j && j < len(updates) && OWN(updates[j]) == a)
+//@
 
 // ---------------------------------------------------------------- abci.go
 // One BeginBlock: fees of the previous block to its proposer, queued awards minted once, queued burns applied once,
